@@ -407,8 +407,15 @@ def _restores_guard(ctx, f: FunctionInfo, m: Node, cand: str) -> bool:
     return False
 
 
+COMMITTING = {'run', 'synthesize', 'decompose', 'finalize'}
+
+
 def instances(ctx: Ctx) -> list[FunctionInfo]:
-    out = []
+    """Functions that compare against the success threshold, plus the
+    committing methods (run / synthesize / decompose / finalize) of every
+    class that stores a success threshold - so that a method whose guard
+    was deleted is still judged (its commits are then unguarded)."""
+    out: dict[str, FunctionInfo] = {}
     for fn in ctx.index.all_functions():
         if not fn.path.startswith('bqskit/passes/'):
             continue
@@ -416,8 +423,28 @@ def instances(ctx: Ctx) -> list[FunctionInfo]:
             continue
         if any(isinstance(x, ast.Compare) and any(
             norm(y) in THR for y in ast.walk(x)) for x in ast.walk(fn.node)):
-            out.append(fn)
-    return sorted(out, key=lambda f: f.qualname)
+            out[fn.qualname] = fn
+    for c in ctx.index.classes.values():
+        if not c.path.startswith('bqskit/passes/'):
+            continue
+        init = c.methods.get('__init__')
+        if init is None or not any(
+            isinstance(n, ast.Assign) and any(
+                norm(t) == 'self.success_threshold' for t in n.targets)
+            for n in ast.walk(init.node)
+        ):
+            continue
+        for name in COMMITTING:
+            f = c.methods.get(name)
+            if f is None:
+                continue
+            uses = any(norm(x) in THR for x in ast.walk(f.node)) or any(
+                isinstance(x, ast.Call) and norm(x.func) in (
+                    'self.cost', 'self.cost.calc_cost', 'cost.calc_cost')
+                for x in ast.walk(f.node))
+            if uses:
+                out[f.qualname] = f
+    return sorted(out.values(), key=lambda f: f.qualname)
 
 
 def rule_ga(ctx: Ctx, rep: Report, rule: str = 'GA',
